@@ -86,6 +86,17 @@ func (v *parser_) ParseSource(source string) (collection any) {
 	// The scanner runs in a separate Go routine.
 	Scanner().Make(v.source_, v.tokens_)
 
+	// Drain any unread tokens on the way out (also when panicking) so that the
+	// scanner is never left blocked on a full token queue.
+	defer func() {
+		for {
+			var _, ok = v.tokens_.RemoveHead()
+			if !ok {
+				break // The scanner has closed the token queue.
+			}
+		}
+	}()
+
 	// Attempt to parse a collection.
 	var token TokenLike
 	var ok bool
